@@ -207,7 +207,53 @@ def ext_opaque_num(name):
     return h
 
 
+def hooks_loop(x, node, st):
+    """loop contract for `for hook in self._hooks: params = hook(origin, target, params, self.state)`  (GCodeBuilder._prepare_move)
+
+    Hooks are arbitrary user callables (assumed not to touch the builder).  The loop is cut: the body is executed once for a
+    generic iteration whose incoming params is either the caller's dict (first iteration) or an arbitrary dict (returned by
+    an earlier hook); the hook call is recorded as a ghost event and returns an arbitrary ParamsDict.  After the loop
+    `params` is that arbitrary dict.  Python's for-statement itself gives 'each element once, in order'; the handler
+    checks that the body is the single call statement (no break/continue/return, no store to self._hooks)."""
+    it = x.ev(node.iter, st)
+    obj = st.heap[it.oid]
+    if "$l" in obj:
+        return x.unrolled_loop(node, x.iter_items(it, st, node), st)
+    body_ok = (len(node.body) == 1 and isinstance(node.body[0], ast.Assign) and isinstance(node.body[0].value, ast.Call)
+               and isinstance(node.body[0].value.func, ast.Name) and node.body[0].value.func.id == node.target.id and not node.orelse)
+    if not body_ok: raise Unsupported("hook loop body is not the single call statement the loop contract covers")
+    tgt = node.body[0].targets[0]
+    if not isinstance(tgt, ast.Name): raise Unsupported("hook loop assigns to a non-variable")
+    var = tgt.id
+    first = fresh("hook_first_iteration", z3.BoolSort())
+    incoming_ref, wf_in, _ = mk_params(st, "hookin")
+    cur = x.dict_of(st, st.env[var])
+    inc = st.heap[incoming_ref.oid]["$d"]
+    merged = VDict({}, {}, True)
+    for k in dict.fromkeys(list(cur.present) + list(inc.present)):
+        pa, pb = cur.present.get(k, F), inc.present.get(k, F)
+        va, vb = cur.vals.get(k), inc.vals.get(k)
+        merged.present[k] = ITE(first, pa, pb)
+        merged.vals[k] = va if vb is None else vb if va is None else merge(first, as_opt(va), as_opt(vb))
+    st.heap[incoming_ref.oid]["$d"] = merged
+    st.env[var] = incoming_ref
+    out_ref, wf_out, _ = mk_params(st, "hookout")
+    od = st.heap[out_ref.oid]["$d"]
+    for k in od.vals:
+        if k not in AXES: od.vals[k] = VOpt(F, od.vals[k].inner)        # A-kwargs: hook-supplied non-axis parameters are numbers
+    x.assume.append(AND(wf_in, wf_out))
+    def hook(x_, args, kwargs, st_, n_):
+        st_.log.append((T, ("hook", list(args))))
+        return out_ref
+    st.env[node.target.id] = VFunc("hook", hook)
+    x.block(node.body, st)
+    x.ghost["hook_out"] = out_ref
+    x.ghost["hook_in"] = incoming_ref
+
+
 def install(x, ctx=None):
+    x.ghost = {}
+    x.loop_handlers[("GCodeBuilder._prepare_move", 1)] = hooks_loop
     c = x.contracts
     c[("DefaultFormatter", "parameters")] = h_fmt_parameters
     c[("DefaultFormatter", "command")] = h_fmt_command
@@ -222,6 +268,8 @@ def install(x, ctx=None):
     c[("CoordinateTransformer", "apply_transform")] = h_apply_transform
     x.ext["join_stmt"] = ext_join_stmt
     x.ext["format_value"] = ext_format_value
+    from specs import npmodel
+    npmodel.install(x)
     x.ext_names["gcode_table"] = VRef("GCodeTable", -1)
     x.ext_names["math"] = VModule("math")
     x.ext["math.pi"] = num(MATH["pi"])
